@@ -58,7 +58,7 @@ def run(pid, replay=None):
     binp = vlib.build_driver(pid, "exchdrv")
     if pid == "C09":
         cases = [c for c in strategies if not c["devs"]] or strategies
-        reps = 350 if thorough else 20
+        reps = 400 if thorough else 60
         for c in cases:
             c["expect"] = {"client": "done", "server": "done", "same_key": True, "same_salt": True, "key_nonzero": True}
     elif pid == "C10":
